@@ -175,6 +175,9 @@ func idStress(t testing.TB, tr *tracer) {
 	cl.Close()
 }
 
+// c03Hangs counts histories in which a call did not return.
+var c03Hangs int
+
 func TestVerif_OwnReply(t *testing.T) {
 	tr := newTracer(t)
 	idStress(t, tr)
@@ -193,6 +196,7 @@ func TestVerif_OwnReply(t *testing.T) {
 		mp := []int{32768, 100, 64, 257}[h%4]
 		conc := []int{64, 1, 2, 3}[(h/4)%4]
 		tr.reset(kv{"kind": "ownreply", "G": G, "R": R, "batch": batch, "maxpacket": mp, "conc": conc})
+		gbase := len(sftpGoroutines()) // goroutines left behind by earlier (already reported) histories
 		pr := newPeer(t, tr)
 		pr.hold = true
 		pr.c2s.afterWrite = func(b []byte) {
@@ -267,20 +271,25 @@ func TestVerif_OwnReply(t *testing.T) {
 				lgv.ret("VerifyWrite", got, hexs(w.data), nil, nil)
 			}
 		}
-		shared.Close()
 		cerr := make(chan error, 1)
-		go func() { cerr <- cl.Close() }()
+		go func() { shared.Close(); cerr <- cl.Close() }()
 		closeRet := true
 		select {
 		case <-cerr:
 		case <-time.After(10 * time.Second):
 			closeRet = false
 		}
-		left := waitNoSftpGoroutines(3 * time.Second)
-		tr.emit("End", kv{"kind": "ownreply", "hung": hung, "waitret": true, "closeret": closeRet, "goroutines": len(left)})
-		if hung != 0 {
+		var left []string
+		waitFor(3*time.Second, func() bool { left = sftpGoroutines(); return len(left) <= gbase })
+		tr.emit("End", kv{"kind": "ownreply", "hung": hung, "waitret": true, "closeret": closeRet, "goroutines": max(len(left)-gbase, 0)})
+		if hung != 0 || !closeRet {
 			pr.c2s.CloseRead()
 			pr.s2c.CloseWrite(io.ErrClosedPipe)
+			c03Hangs++
+			if c03Hangs >= 3 {
+				tr.emit("Note", kv{"aborted": "three histories with calls that did not return; the rest of the sweep is skipped"})
+				break
+			}
 		}
 	}
 	_ = bytes.Equal
